@@ -298,3 +298,32 @@ def canon_lids(t):
         return tuple(go(y) for y in x)
     # generators first so that ids are assigned in binding order
     return go(t)
+
+
+def rebuild(t, mapping):
+    """Substitute and re-normalise (arithmetic is re-folded after substitution)."""
+    if t in mapping:
+        return mapping[t]
+    if not isinstance(t, tuple) or not t:
+        return t
+    k = t[0]
+    if k == "lin":
+        acc = const(t[2])
+        for a, c in t[1]:
+            acc = mk_add(acc, mk_mul(const(c), rebuild(a, mapping)))
+        return acc
+    if k == "mul":
+        return mk_mul(rebuild(t[1], mapping), rebuild(t[2], mapping))
+    if k == "mod":
+        return mk_mod(rebuild(t[1], mapping), rebuild(t[2], mapping))
+    if k == "cmp":
+        return mk_cmp(t[1], rebuild(t[2], mapping), rebuild(t[3], mapping))
+    if k == "not":
+        return mk_not(rebuild(t[1], mapping))
+    if k == "ite":
+        return mk_ite(rebuild(t[1], mapping), rebuild(t[2], mapping), rebuild(t[3], mapping))
+    if k == "bin":
+        return mk_bin(t[1], rebuild(t[2], mapping), rebuild(t[3], mapping))
+    if k == "c":
+        return t
+    return tuple(rebuild(x, mapping) if isinstance(x, tuple) else x for x in t)
